@@ -48,6 +48,8 @@ func repoLockEngine(c *Ctx) *LockEngine {
 		}
 		le.Pkgs[pk.PkgPath] = true
 	}
+	// the access-control context captures the log: it may only be built under that log's lock
+	le.CtxLits = map[*types.Named][2]string{p.Named("", "CanAppendContext"): {"log", "IPFSLog.lock"}}
 	le.Run()
 	lockCache[c.P] = le
 	return le
@@ -188,10 +190,31 @@ func dischargeByConstruction(c *Ctx, le *LockEngine, fn *Fn, q lockReq) (bool, s
 					return true
 				}
 				_, key, ok := c.P.PathKey(g, val)
-				if !ok || !le.hasLock(before, key, q.Class, q.Mode) {
-					okAll = false
-					why = append(why, fmt.Sprintf("%s: %s of %s not held when the context is built", c.P.Pos(cl.Pos()), q.Class, types.ExprString(val)))
-					return true
+				heldHere := ok && le.hasLock(before, key, q.Class, q.Mode)
+				if !heldHere {
+					// the requirement may have been passed to the callers of g and discharged there
+					lifted, violated := false, false
+					for _, a := range le.Accesses {
+						if a.Kind == "context" && a.Pos == cl.Pos() {
+							if a.Lifted {
+								lifted = true
+							} else if !a.Held {
+								violated = true
+							}
+						}
+						if a.Kind == "context" && a.Fn == g && !a.Held && !a.Lifted && a.Field == nil && strings.Contains(a.Expr, "context literal") {
+							violated = true
+						}
+					}
+					// a lifted requirement that no entry point is left with is discharged at every call site
+					if lifted && !violated && !entryPointLeftWith(c, le, g.Root(), "context") {
+						why = append(why, fmt.Sprintf("%s in %s: lock supplied by every caller of %s", c.P.Pos(cl.Pos()), g.Name, g.Root().Name))
+						// still must flow only into a call argument
+					} else {
+						okAll = false
+						why = append(why, fmt.Sprintf("%s: %s of %s not held when the context is built", c.P.Pos(cl.Pos()), q.Class, types.ExprString(val)))
+						return true
+					}
 				}
 				// must flow only into a call argument
 				var par ast.Node = c.P.parent[cl]
@@ -640,4 +663,21 @@ func shortFn(fn *Fn) string {
 		n = n[i+1:]
 	}
 	return n
+}
+
+// entryPointLeftWith: is fn (or a function its requirement was lifted to) an entry point still carrying a
+// requirement of the given kind?
+func entryPointLeftWith(c *Ctx, le *LockEngine, fn *Fn, kind string) bool {
+	// any entry point whose needs contain a requirement originating in fn with that kind
+	for g, m := range le.needs {
+		if !isEntryPoint(c, g) {
+			continue
+		}
+		for _, q := range m {
+			if q.Kind == kind && q.Fn.Root() == fn {
+				return true
+			}
+		}
+	}
+	return false
 }
